@@ -82,6 +82,11 @@ def _worker(modname, obname, seed, tier, conn):
         ob = next(o for o in H.REGISTRY[prop] if o.name == obname)
         res = H.run_obligation(ob, seed, tier)
         res["stubs_used"] = dict(stubs.USED)
+        try:
+            import resource
+            res["maxrss_mb"] = int(resource.getrusage(resource.RUSAGE_SELF).ru_maxrss / 1024)
+        except Exception:
+            pass
     except BaseException as e:  # noqa
         res = {"key": f"{modname}:{obname}", "name": obname, "verdict": "inconclusive", "mandatory": True,
                "inconclusive": ["worker crash: " + "".join(traceback.format_exception(type(e), e, e.__traceback__))[-2000:]],
@@ -118,8 +123,22 @@ def run_property(prop, tier, seed, only=None, jobs=None, verbose=False, list_onl
     pending = list(obs)
     running = {}
     results = []
+    requeued = {}
     while pending or running:
-        while pending and len(running) < jobs:
+        # memory guard: certificate searches of the largest cells need several GB each.  New workers are admitted only
+        # while enough memory is available; if the machine runs short the youngest worker is stopped and re-queued
+        # (its obligation is run again later, nothing is counted for the stopped attempt)
+        avail = _mem_available_gb()
+        if len(running) > 1 and avail < _MEM_KILL_GB:
+            name = max(running, key=lambda n: running[n][2])
+            p, pc, ts, ob = running.pop(name)
+            p.kill()
+            p.join(5)
+            requeued[name] = requeued.get(name, 0) + 1
+            pending.append(ob)
+            time.sleep(1.0)
+            continue
+        while pending and len(running) < jobs and (not running or _mem_available_gb() > _MEM_ADMIT_GB):
             ob = pending.pop(0)
             pc, cc = ctx.Pipe(duplex=False)
             p = ctx.Process(target=_worker, args=(modname, ob.name, seed, tier, cc), daemon=True)
@@ -165,6 +184,19 @@ def run_property(prop, tier, seed, only=None, jobs=None, verbose=False, list_onl
 
 
 _CLK = os.sysconf("SC_CLK_TCK") if hasattr(os, "sysconf") else 100
+_MEM_ADMIT_GB = float(os.environ.get("QV_MEM_ADMIT_GB", "10"))
+_MEM_KILL_GB = float(os.environ.get("QV_MEM_KILL_GB", "3"))
+
+
+def _mem_available_gb():
+    try:
+        with open("/proc/meminfo") as f:
+            for line in f:
+                if line.startswith("MemAvailable:"):
+                    return int(line.split()[1]) / 1048576.0
+    except Exception:
+        pass
+    return 1e9
 
 
 def _cpu_s(pid, fallback):
@@ -313,7 +345,7 @@ def finish(prop, tier, seed, results, meta, wall, verbose, partial=False):
             "per_obligation": [
                 {"name": r["name"], "verdict": r["verdict"], "paths": r.get("paths", 0), "goals": r.get("goals", 0),
                  "checks": r.get("checks", 0), "procedure": r.get("procedure", []), "wall_s": r.get("wall_s", 0),
-                 "hypotheses": r.get("hypotheses", 0),
+                 "hypotheses": r.get("hypotheses", 0), "maxrss_mb": r.get("maxrss_mb", 0),
                  **({"why": [x.splitlines()[0][:200] for x in r.get("inconclusive", [])[:2]]} if r["verdict"] == "inconclusive" else {})}
                 for r in results
             ],
